@@ -24,7 +24,7 @@ RELATED = {
     "C01": ["C01", "C14", "C03"], "C02": ["C02", "C10"], "C03": ["C03", "C14"], "C04": ["C04", "C11", "C05"], "C05": ["C05"],
     "C06": ["C06"], "C07": ["C07", "C05"], "C08": ["C08"], "C09": ["C09", "C05"], "C10": ["C10", "C05"], "C11": ["C11", "C04"],
     "C12": ["C12", "C11"], "C13": ["C13", "C01"], "C14": ["C14", "C01"], "C15": ["C15"], "C16": ["C16"], "C17": ["C17"],
-    "C18": ["C18"], "C19": ["C19"], "C20": ["C20", "C05"],
+    "C18": ["C18"], "C19": ["C19"], "C20": ["C20", "C06", "C05"],
 }
 
 
